@@ -3,6 +3,15 @@ from vdriver import H
 
 PROPS = {}
 
+# Loops over a `Vec<CowBytes>` (vectored Push payload).  The discriminant of `Payload` /
+# `PushPayload` is not folded by the symbolic execution, so these loops are explored under an
+# infeasible guard wherever a frame is encoded, measured or compared; bound them.
+def vec_loops(n):
+    return [(r"Iter<'_, cow_bytes::CowBytes<'_>>", n), (r"\[cow_bytes::CowBytes<'_>\] as std::slice::Concat", n),
+            (r"From<&penguin_mux::frame::Frame<'_>> for std::vec::Vec<u8>>::from", n),
+            (r"Vec<cow_bytes::CowBytes<'_>>", n), (r"\[cow_bytes::CowBytes<'_>\]", n)]
+
+
 SHIM_TRUST = {
     "bytes": "shim `bytes` (Bytes = leaked &'static [u8]; split/advance/truncate with the documented panics)",
     "tokio": "shim `tokio` (sequential mpsc/oneshot rings with real waker registration; io traits and *Ext helpers; virtual-clock time)",
@@ -88,6 +97,53 @@ def _c20():
 PROPS["C20"] = _c20()
 
 # ---------------------------------------------------------------------------------------------
+# C09
+# ---------------------------------------------------------------------------------------------
+def _c09():
+    hs = []
+    enc_quick = ["connect_h0", "connect_h3", "ack", "reset", "finish", "push_p0", "push_p4", "push_owned_p0", "pushv_1_2",
+                 "pushv_0_2", "bind_h0", "bind_h2", "dgram_h0_p0", "dgram_h0_p1", "dgram_h2_p3", "dgram_h1_p4", "dgram_owned_h0_p0", "dgram_owned_h1_p2"]
+    enc_thorough = ["connect_h1", "push_p1", "push_owned_p3", "pushv_none", "pushv_one", "pushv_2_0", "dgram_h2_p0", "dgram_h2_p5", "dgram_owned_h3_p4"]
+    for n in enc_quick:
+        hs.append(H(f"c09_enc_{n}", tier="quick", profiles=("dev", "rel"), unwindset=vec_loops(4 if n.startswith("pushv") else 2),
+                    note="constructor -> bytes == PROTOCOL.md layout; decode(bytes) == frame (borrowed and owned)"))
+    for n in enc_thorough:
+        hs.append(H(f"c09_enc_{n}", tier="thorough", profiles=("dev", "rel"), unwindset=vec_loops(4 if n.startswith("pushv") else 2),
+                    note="constructor -> bytes == PROTOCOL.md layout; decode(bytes) == frame (borrowed and owned)"))
+    # decode of ARBITRARY strings is decided for the production build (`rel`): in a debug build
+    # `check_remaining!` panics on short input by design (debug_assert, not(fuzzing)).
+    for n in [0, 1, 4]:
+        hs.append(H(f"c09_dec_short_n{n}", tier="quick", profiles=("rel",), note=f"all byte strings of length {n} (shorter than the header): rejected, no panic"))
+    # quick tier: per opcode the lengths around its minimum (the boundaries named in the
+    # property); every other length up to 16 is in the thorough tier.
+    quick_len = {0: (10, 11, 12), 1: (8, 9, 10), 2: (5, 6), 3: (5, 6), 4: (5, 6, 8), 5: (7, 8, 9), 6: (7, 8, 9)}
+    for n in [5, 6, 7, 8, 9, 10, 11, 12, 13, 14, 16]:
+        for op in range(7):
+            hs.append(H(f"c09_dec_op{op}_n{n}", tier="quick" if n in quick_len[op] else "thorough", profiles=("rel",), unwindset=vec_loops(2),
+                        mem_gb=(20 if op >= 5 and n >= 10 else None), timeout=(3000 if op >= 5 and n >= 10 else None),
+                        note=f"all byte strings of length {n} with first octet 0x7{op} / 0x0{op}: Ok iff valid per PROTOCOL.md, fields pinned by re-encoding, owned == borrowed, no panic"))
+        hs.append(H(f"c09_dec_badfirst_n{n}", tier="quick" if n == 5 else "thorough", profiles=("rel",), unwindset=vec_loops(2),
+                    note=f"all byte strings of length {n} with any other first octet (242 values): rejected, no panic"))
+    for n in ["p0_e2", "p2_e2", "p2_e0"]:
+        hs.append(H(f"c09_append_{n}", tier="quick" if n != "p2_e0" else "thorough", profiles=("dev", "rel"), note="append_push_data == encoding of the concatenation"))
+    return dict(
+        kind="ext", module="c09", shims=["bytes", "tokio", "tracing", "tracing-attributes", "parking_lot_core"],
+        harnesses=hs,
+        bounds=dict(ids_ports_windows="full width, symbolic", host_len="0,1,2,3 (concrete per harness)", payload_len="0..5 (concrete per harness), vectored: 0..2 segments of 0..2 bytes",
+                    decode="every byte string of the enumerated lengths, contents fully symbolic except the first octet, which is enumerated (all 256 values) as a constant per run; quick: lengths 0,1,4 and per opcode the three lengths around its minimum; thorough: every opcode x lengths 5..14,16", unwind="20/26"),
+        outside=["frames longer than 16 bytes / hosts longer than 3 bytes (the decoder has no length-dependent branch beyond the enumerated boundaries: stated, not proved)",
+                 "the 255/256-byte Datagram host boundary of the encoder (decided at the API level in C11)",
+                 "which Error variant is returned for an invalid string (the property only requires rejection)",
+                 "trailing bytes after Acknowledge/Reset/Finish (PROTOCOL.md is silent; accepted and ignored by the decoder, treated as valid)"],
+        assumptions=["bytes shim models Bytes/Buf/BufMut big-endian accessors per the bytes documentation", "decode of arbitrary strings is decided for the production profile (debug_assert in check_remaining! is by design)"],
+        trusted=[SHIM_TRUST["bytes"], "reference layout + validity predicate written from PROTOCOL.md in harness/ext/src/c09.rs"],
+        explanation="Differential check of the real codec against an independent reference layout: constructors -> bytes, bytes -> frame for ALL byte strings of each enumerated length.",
+    )
+
+
+PROPS["C09"] = _c09()
+
+# ---------------------------------------------------------------------------------------------
 # MANIFEST texts
 # ---------------------------------------------------------------------------------------------
 WIP = "check not built yet in this session (work in progress; see DESIGN.md §4 for the plan)"
@@ -95,10 +151,15 @@ NOT_APPLICABLE = {
     "C01": "end-to-end behaviour over real TCP/UDP/Unix sockets, the tokio multi-thread runtime, hyper and the rusty-penguin binary crate (rustls/aws-lc FFI in its closure): none of it can be compiled by Kani or encoded by hand within reach; its codec-level ingredients are decided under C02, C09, C11, C13, C18",
     "C17": "certificate-path validation, name matching and client-certificate verification happen inside rustls/webpki/aws-lc-rs (C and assembly behind FFI); the repository's part is a four-arm match that only has meaning through those libraries — nothing a solver can encode",
 }
-for _p in ["C02", "C03", "C04", "C05", "C06", "C07", "C08", "C09", "C10", "C11", "C12", "C13", "C14", "C15", "C16", "C18", "C19"]:
+for _p in ["C02", "C03", "C04", "C05", "C06", "C07", "C08", "C10", "C11", "C12", "C13", "C14", "C15", "C16", "C18", "C19"]:
     NOT_APPLICABLE.setdefault(_p, WIP)
 
 MANIFEST_TEXT = {
+    "C09": dict(
+        design_ref="DESIGN.md §4-C09",
+        level_text="Bounded model checking of the real frame codec (penguin_mux::frame) against an independent reference written from PROTOCOL.md: every public constructor with symbolic field values and enumerated host/payload lengths must encode to the reference bytes and decode back (borrowed and owned) to an equal frame; for EVERY byte string of each enumerated length the decoder must accept exactly the valid ones, never panic in a production build, and re-encode to the input. The solver covers all contents at once, which is where the pinned decoder was wrong (Datagram payloads of 0-3 bytes).",
+        level_note="Trusted: Kani/CBMC, the `bytes` model, the reference layout in the harness. Bounds: hosts <= 3 bytes, payloads <= 5 bytes, byte strings <= 12 (quick) / 16 (thorough) bytes; longer inputs are outside the claim. Error variants are not compared.",
+    ),
     "C20": dict(
         design_ref="DESIGN.md §4-C20",
         level_text="Bounded model checking of the real cow-bytes crate: every LongChain/CowBytes operation is executed symbolically from every valid chain of the enumerated shapes (<=3 chunks of 1..3 bytes, symbolic contents and variants) with a symbolic argument ranging to two past the end, and compared with a flat byte-array model; CBMC decides all values at once. This is the right level because the defects live at argument boundaries no unit test samples (truncate past the end, empty segments), and a single step from an arbitrary valid state covers operation sequences of any length.",
